@@ -218,6 +218,22 @@ def run_dur_factory(ctx, mon):
                     else:
                         mon.check_duration(r, want, case, f"from_{name}")
                 _call(ctx, lambda f=f, n=n: f(n), inr, case, f"from_{name}", ok)
+    # float arguments with an exactly representable product (eighths): the value is the exact product truncated toward zero to nanoseconds
+    from fractions import Fraction
+    for name, u in UNITS.items():
+        f = getattr(Duration, "from_" + name)
+        lim = (2**52) // u
+        for m in [1, -1, 3, -6, 4, 20, -7, 12, 2**20 + 1, -(2**20) - 5] + [rng.randint(-8 * min(lim, 10**9), 8 * min(lim, 10**9)) for _ in range(12)]:
+            if abs(m) > 8 * lim and lim > 0: m = m % (8 * lim)
+            x = m / 8
+            fr = Fraction(m, 8) * u; want = int(fr) if fr >= 0 else -int(-fr)
+            case = {"kind": "dur_factory_float", "unit": name, "m8": m}
+            ctx.count("dur_factory"); ctx.key(("fac-float", name, (m > 0) - (m < 0), m % 8 != 0))
+            try:
+                r = f(x)
+            except Exception as e:  # noqa: BLE001
+                ctx.exc(e); ctx.V(f"C03:from_{name}:float-raised", f"Duration.from_{name}({x!r}) raised {e!r}", case, repr(e)); continue
+            mon.check_duration(r, want, case, f"from_{name}(float)")
     ctx.sample({"kind": "dur_factory", "unit": "ticks", "n": 927712935935999999998})
     # timedelta route
     for us in [0, 1, -1, 86399999999, -86400000001] + [rng.randint(-10**15, 10**15) for _ in range(200)] + [rng.choice([-1, 1]) * rng.getrandbits(rng.choice([40, 55, 62])) for _ in range(100)]:
@@ -532,6 +548,10 @@ def replay(ctx, case):
             else:
                 mon.check_duration(r, want, case, f"from_{name}")
         _call(ctx, lambda: getattr(Duration, "from_" + name)(n), inr, case, f"from_{name}", ok)
+    elif k == "dur_factory_float":
+        from fractions import Fraction
+        u = UNITS[case["unit"]]; fr = Fraction(case["m8"], 8) * u; want = int(fr) if fr >= 0 else -int(-fr)
+        mon.check_duration(getattr(Duration, "from_" + case["unit"])(case["m8"] / 8), want, case, f"from_{case['unit']}(float)")
     elif k == "dur_float":
         da = Duration.from_nanoseconds(case["a"]); f = case["f"]
         r = {"truediv-float": lambda: da / f, "mul-float": lambda: da * f, "rmul-float": lambda: f * da, "divide-float": lambda: Duration.divide(da, f)}[case["op"]]()
